@@ -159,3 +159,19 @@ package builder
 //@   requires CtxOK(ctx) && source != nil && target != nil
 //@   assigns source.enum, target.enum
 //@   ensures result ==> ctx.Conf.Enum.Enabled && source.Named && target.Named
+
+// ---- C10: the zero-value guard decision table (docs/reference/update.md) ----
+//@ pred MethodOK(ctx *MethodContext) bool = ctx != nil && ctx.Conf != nil && ctx.Conf.Definition != nil
+
+//@ func shouldCheckAgainstZero
+//@   props C10
+//@   pure
+//@   requires MethodOK(ctx) && s != nil && t != nil
+//@   ensures result == ((ctx.Conf.UpdateTarget || isUpdate) &&
+//@        ((s.Struct && ctx.Conf.IgnoreStructZeroValueField)
+//@      || (s.Basic && ctx.Conf.IgnoreBasicZeroValueField)
+//@      || (ctx.Conf.IgnoreNillableZeroValueField &&
+//@            (s.Chan || s.Map || s.Func || s.Signature || s.Interface
+//@             || ((call || (ctx.Conf.SkipCopySameType && types.Identical(s.T, t.T))) && ((s.List && !s.ListFixed) || s.Pointer))))))
+//@   ensures !(ctx.Conf.UpdateTarget || isUpdate) ==> !result
+//@   ensures result && s.List ==> !s.ListFixed
